@@ -456,6 +456,9 @@ class LocalConcurrences:
                                   False)
         else:
             wp = self._wp
+            # Cells used by earlier matches are marked by a negated value
+            used = (wp.data < 0) & np.isfinite(wp.data)
+            wp.data[used] = -wp.data[used]
             if self.window is None:
                 wp.mask = False
             else:
